@@ -113,6 +113,19 @@ impl<'a> Gen<'a> {
             1 => 1,
             2 => tmax.min(10u128.pow(dmax as u32) - 1),
             3 if stray => tmax.min(10u128.pow(dmax as u32)), // one too wide for the field (if the type allows)
+            5 => {
+                // power of two +-2 (binary boundaries: 2^32, 2^53 float precision, 2^63 ...)
+                let k = rng.below(65) as u32;
+                let p = if k >= 64 { u64::MAX as u128 } else { 1u128 << k };
+                let v = match rng.below(5) {
+                    0 => p.saturating_sub(2),
+                    1 => p.saturating_sub(1),
+                    2 => p,
+                    3 => p + 1,
+                    _ => p + 2,
+                };
+                v.min(tmax).min(10u128.pow(dmax as u32) - 1)
+            }
             4 => {
                 // power of ten +-1 at a digit-count boundary
                 let d = rng.below(dmax as u64 + 1) as u32;
